@@ -33,7 +33,7 @@ func init() {
 		MinEvals:    floor(7000, 50000),
 		MinDistinct: floor(3000, 15000),
 		RequiredCells: func(string) []string {
-			cells := []string{"A/zones", "B/long-chain", "A/inside", "A/before-nbf", "A/after-exp", "A/on-bound", "A/decoded", "A/constructed", "A/delegation", "A/invocation", "A/exp<nbf", "A/far-future-bound", "A/decoded-from-signed-payload",
+			cells := []string{"A/zones", "B/long-chain", "B/far-bound", "A/inside", "A/before-nbf", "A/after-exp", "A/on-bound", "A/decoded", "A/constructed", "A/delegation", "A/invocation", "A/exp<nbf", "A/far-future-bound", "A/decoded-from-signed-payload",
 				"B/all-valid", "B/expired@inv"}
 			for _, pos := range []string{"first", "middle", "last", "only"} {
 				cells = append(cells, "B/expired@"+pos, "B/notyet@"+pos)
@@ -362,6 +362,16 @@ func runC04(w *mon.W) {
 				s.InvExp = chain.D(-off)
 				offs = append(offs, "inv:exp-"+off.String())
 				w.Cover("B/expired@inv")
+				continue
+			}
+			if r.IntN(6) == 0 {
+				// further away than a time.Duration can say
+				// (the constructors refuse bounds in the past, so only the not-yet-active side can be
+				// built this way; far-past expirations are covered by the hand-signed tokens of part A)
+				s.Links[where].NbfAbs = chain.T(gen.Pick(r, chain.FarFuture))
+				offs = append(offs, fmt.Sprintf("%d:nbf@unix%d", where, s.Links[where].NbfAbs.Unix()))
+				w.Cover("B/notyet@" + pos3(where, n))
+				w.Cover("B/far-bound")
 				continue
 			}
 			if r.IntN(2) == 0 {
